@@ -132,7 +132,29 @@ def vecStep (s : OV Nat) (toks : List String) : Option (OV Nat × String) :=
         | some (s', r, w) => some (s', r.show ++ " vals=" ++ showList s'.vals ++ showWoke w)
         | none => some (s, "panic vals=" ++ showList s.vals ++ showWoke [])
       | none => some (s, "bad-op")
+    | [i, "none"] =>      -- `ObservableVector::entry(i)` taken and dropped unused: only the bounds check
+      match i.toNat? with
+      | some i => some (s, if i < s.vals.length then "ok" else "panic")
+      | none => some (s, "bad-op")
     | _ => some (s, "bad-op")
+  | ["t.entry", i] =>     -- `ObservableVectorTransaction::entry(i)` taken and dropped unused
+    match i.toNat?, s.txn with
+    | some i, some t => some (s, if i < t.working.length then "ok" else "panic")
+    | _, _ => some (s, "bad-op")
+  | ["t.eset", i, v] =>   -- through `entry(i)`: forwards to `set`
+    match i.toNat?, v.toNat? with
+    | some i, some v =>
+      match s.txnOp (.set i v) with
+      | some (s', r) => some (s', r.show ++ tvalsStr s')
+      | none => some (s, "panic" ++ tvalsStr s)
+    | _, _ => some (s, "bad-op")
+  | ["t.erem", i] =>
+    match i.toNat? with
+    | some i =>
+      match s.txnOp (.remove i) with
+      | some (s', r) => some (s', r.show ++ tvalsStr s')
+      | none => some (s, "panic" ++ tvalsStr s)
+    | none => some (s, "bad-op")
   | t :: rest =>
     if t.startsWith "t." then
       match parseVOp ((t.drop 2).toString :: rest) with
